@@ -63,7 +63,7 @@ fn generation() -> u64 {
     GENERATION.load(std::sync::atomic::Ordering::SeqCst)
 }
 
-const STUCK: Duration = Duration::from_secs(20);
+const STUCK: Duration = Duration::from_secs(10);
 
 fn enabled_list(st: &State) -> Vec<usize> {
     let is_enabled = |i: usize| match st.threads[i] {
